@@ -1889,6 +1889,166 @@ def _letters(ctx, hfn):
 
 row('C14', PT, 'type-letters', _letters)
 
+def _no_loop_or_index_arithmetic(ctx, hfn):
+    """the segment index is the result of the search as it comes (`Ok(i) | Err(i) => i`): no loop moving it on and no
+    arithmetic on it -- stepping over equal lengths makes a distance inside the segment before a duplicated vertex land on
+    the zero-length segment"""
+    bad = []
+
+    def v(n, anc):
+        if n.get('k') == 'loop':
+            bad.append(('a loop', n))
+        if n.get('k') in ('assignop',) or (n.get('k') == 'binary' and n.get('op') in ('Add', 'Sub') and (n.get('ty') == 'usize')):
+            bad.append(('index arithmetic', n))
+    for dpt in (0, 1):
+        vh = hfn if dpt == 0 else H.inlined_fn(ctx.facts, hfn, depth=1)
+        H.walk(vh['body'], v)
+    ok = not bad
+    return ok, '' if ok else ('the found index is adjusted after the search (%s): the position for a distance is no longer the one '
+                              'on its own segment' % bad[0][0]), bad[0][1].get('ln') if bad else None
+
+
+row('C19', CURVE + 'idx_of_dist', 'search-result-unadjusted', _no_loop_or_index_arithmetic)
+
+
+def _all_leaves_trimmed(ctx, hfn):
+    """the line handed back for re-examination is trimmed at the end on every path, whatever the encoding (a header followed
+    by its line feed is not a header)"""
+    import symeval as SE
+    body = hfn['body']
+    ev = SE.SymEval(None, budget=3000)
+    try:
+        tree = ev.seq(list(body.get('stmts', [])), body.get('expr'), {},
+                      lambda env, tail: ev.value(tail, env) if tail is not None else ('v', {'k': 'unit'}),
+                      kret=lambda vt, env=None: vt)
+    except SE.Stop:
+        return True, 'not determined', None
+    for _p, l in SE.leaves(tree):
+        ctx.env = {}
+        if not OR(M('trim_end', ANY()), M('trim', ANY()), M('trim_end_matches', ANY(), ANY())).m(ctx, l):
+            return False, 'on some path the current line is handed back untrimmed (with its line terminator)', \
+                l.get('ln') if isinstance(l, dict) else None
+    return True, '', None
+
+
+row('C05', 'reader::decoder::Decoder::<R>::curr_line', 'current-line-trimmed', _all_leaves_trimmed)
+
+
+def _combo_push_unconditional(ctx, hfn):
+    """every valid `Combo*` record appends a colour: the push sits directly in the arm of the key, under no further test"""
+    hits = []
+
+    def v(n, anc):
+        if n.get('k') == 'mcall' and n.get('name') == 'push':
+            r = strip(n['recv'])
+            if isinstance(r, dict) and r.get('k') == 'field' and r.get('n') == 'custom_combo_colors':
+                def plain_if(a):
+                    c = strip(a.get('c')) if a.get('k') == 'if' else None
+                    return isinstance(c, dict) and c.get('k') != 'let' and 'TryDesugar' not in repr(c)[:400]
+                guards = [a for a in anc if plain_if(a)]
+                hits.append((n, guards))
+    for dpt in (0, 1, 2):
+        vh = hfn if dpt == 0 else H.inlined_fn(ctx.facts, hfn, depth=dpt)
+        hits.clear()
+        H.walk(vh['body'], v)
+        if hits:
+            break
+    if not hits:
+        return False, 'no push onto the combo colour list found', None
+    bad = [h for h in hits if h[1]]
+    ok = not bad
+    return ok, '' if ok else 'a valid combo colour record is appended only under a further condition', bad[0][0].get('ln') if bad else None
+
+
+row('C11', 'section::colors::decode::Colors::parse_colors' if False else '<section::colors::decode::Colors as decode::DecodeBeatmap>::parse_colors',
+    'combo-record-always-appended', _combo_push_unconditional)
+
+
+def _float_parser_rejections(ty, n_expected):
+    def chk(ctx, hfn):
+        """the limit-checking number parser rejects exactly: unparsable text, below -limit, above limit (and NaN for floats):
+        each of these error kinds is produced at one place, and no other kind of the number error is produced by hand"""
+        from collections import Counter
+        best = Counter()
+        for h2 in [hfn] + local_callees(ctx.facts, hfn, depth=3):
+            H.walk(h2['body'], lambda x, a: best.update([x.get('name')]) if x.get('k') == 'path' and 'ParseNumberError::' in x.get('def', '')
+                   and 'Ctor' in (x.get('dk') or '') else None)
+        if not best:
+            return False, 'no limit rejection found in the number parser', None
+        allowed = {'NumberUnderflow', 'NumberOverflow', 'NaN'}     # (a helper shared with the floats may carry a dead NaN test for i32)
+        need = {'NumberUnderflow', 'NumberOverflow'} | ({'NaN'} if ty != 'i32' else set())
+        passthrough = {'InvalidFloat', 'InvalidInteger'}          # wrapping the std parse error
+        extra = {k for k in best if k not in allowed and k not in passthrough}
+        dup = {k: v for k, v in best.items() if k in allowed and v > 1}
+        ok = not extra and not dup and all(k in best for k in need)
+        return ok, '' if ok else ('the number parser produces %s; the format rejects only unparsable text and values beyond the '
+                                  'limit%s, each at one place: a number the encoder writes can be refused'
+                                  % (', '.join('%s x%d' % kv for kv in sorted(best.items())), ' and NaN' if ty != 'i32' else '')), None
+    return chk
+
+
+for _t, _n in (('i32', 2), ('f32', 3), ('f64', 3)):
+    row('C04', '<%s as util::parse_number::ParseNumber>::parse_with_limits' % _t, 'rejects-only-beyond-limits:' + _t, _float_parser_rejections(_t, _n))
+    row('C11', '<%s as util::parse_number::ParseNumber>::parse_with_limits' % _t, 'rejects-only-beyond-limits:' + _t, _float_parser_rejections(_t, _n))
+
+
+def _node_banks_after_object_banks(ctx, hfn):
+    """slider nodes start from the object's own sample banks: the object's bank field is read into `bank_info` before the
+    per-node copies of it are made"""
+    order = {}
+    reads, clones = [], []
+
+    def v(n, anc):
+        order[id(n)] = len(order)
+        if n.get('k') == 'mcall' and n.get('name') == 'read_custom_sample_banks' and len(n.get('args', [])) == 2 and \
+                ctx.const_value(n['args'][1]) is True and L('bank_info').m(ctx, n['recv']):
+            reads.append(n)
+        if n.get('k') in ('call', 'mcall') and CONTAINS(M('clone', L('bank_info'))).m(ctx, n) and \
+                ('from_elem' in (n.get('full') or '') + (n['f'].get('def', '') if n.get('k') == 'call' and isinstance(n.get('f'), dict) else '')
+                 or n.get('name') in ('collect', 'resize')):
+            clones.append(n)
+    H.walk(hfn['body'], v)
+    if not reads or not clones:
+        return True, 'not determined (the bank read or the node copies were not found)', None
+    ok = min(order[id(r)] for r in reads) < min(order[id(c)] for c in clones)
+    return ok, '' if ok else ('the per-node bank infos are copied from `bank_info` before the object\'s own bank field is read into it: '
+                              'nodes no longer inherit the object\'s banks'), clones[0].get('ln')
+
+
+row('C14', HITOBJ, 'node-banks-after-object-banks', _node_banks_after_object_banks)
+def _hold_end_first_piece(ctx, hfn):
+    """the end time of a hold note is the text before the first `:` of its field -- the whole field when there is no colon:
+    some `parse_num` of the function reads `<field>.split(':').next()` (a `split_once(':')` loses a bare end time)"""
+    def res(e, depth=0):
+        e = strip(e)
+        while isinstance(e, dict) and depth < 8:
+            depth += 1
+            if e.get('k') == 'mcall' and e.get('name') in ('ok_or', 'ok_or_else', 'unwrap_or', 'unwrap_or_default', 'trim'):
+                e = strip(e['recv'])
+                continue
+            if e.get('k') == 'local':
+                its = unique_inits(ctx, e['name'])
+                if len(its) == 1 and strip(its[0]) is not e:
+                    e = strip(its[0])
+                    continue
+            break
+        return e
+    for n, _a in find(ctx, hfn['body'], M('parse_num', ANY())):
+        if 'Result<f64' not in (strip(n).get('ty') or ''):
+            continue                    # (node sample sets are `:`-separated integers)
+        t = res(strip(n)['recv'])
+        if isinstance(t, dict) and t.get('k') == 'mcall' and t.get('name') == 'next':
+            q = res(t['recv'])
+            if isinstance(q, dict) and q.get('k') == 'mcall' and q.get('name') in ('split', 'splitn') and q.get('args') and \
+                    K(':').m(ctx, q['args'][-1]):
+                return True, '', strip(n).get('ln')
+    return False, ('no number of the line is read from `<field>.split(\':\').next()`: the end time of a hold note written without a '
+                   'sample suffix is lost'), None
+
+
+_hold_end_first_piece.positive = True
+row('C14', HITOBJ, 'hold-end-is-first-colon-piece', _hold_end_first_piece)
+
 # ------------------------------------------------------------------------------ C15
 row('C15', None, 'const:BASE_SCORING_DIST', _const('section::hit_objects::BASE_SCORING_DIST', 100.0))
 row('C15', 'section::hit_objects::decode::get_precision_adjusted_beat_len', 'clamp:osu/catch',
